@@ -135,7 +135,8 @@ def target (path : Bytes) (existsOnDisk isDirOnDisk trackedDir : Bool) : Bytes :
   if !existsOnDisk then (if trackedDir then path ++ [47] else path)
   else if isDirOnDisk && !List.elem (47 : UInt8) path then path ++ [47] else path
 
+/-- (repaired: a blank line is not an entry) -/
 def lines (file : Option Bytes) : List Bytes :=
-  match file with | none => [] | some f => Bytes.scanLines f
+  match file with | none => [] | some f => (Bytes.scanLines f).filter (fun l => l ≠ [])
 
 end Ignore
